@@ -16,7 +16,7 @@ use std::io::{BufRead, BufReader, Write};
 use std::path::PathBuf;
 use unic_locale::{LanguageIdentifier, Locale};
 
-pub const RULE: &str = "Domain: one deterministic, seeded corpus evaluated by every build of the same harness source (feature sets of {likelysubtags, serde, macros}: quick = none, {l}, {l,s} (main), {s,m}, {l,s,m}; thorough = all 8): section A every 'en-' + locale-alphabet token sequence of 1-3 subtags and every 1-2 subtag sequence of the full boundary alphabet (exhaustive); B proptest well-formed locales (all extension shapes, case / separator masks); C near-miss mutations; D language-id strings and near misses - each through Locale::from_bytes, LanguageIdentifier::from_bytes, both canonicalize functions, Display, Debug of errors, hash; E all pairs of a 160 | 400-value pool: ==, cmp, hash equality, matches under the four flag pairs for Locale and LanguageIdentifier; F proptest mutation histories (0-40 public mutator / getter calls, maximize/minimize left out) with the call result and to_string() after every step; G character_direction of every accepted identifier of B and D and of every CLDR layout locale. Oracle: for every line index, sections A-F are byte-identical in all builds; a G line may differ only between a build with and one without likelysubtags, and only for a script-less identifier (the documented refinement). Non-trivial = a line whose input is not a single subtag (histories: at least one mutation step); distinct lines counted through a hash set over the reference build's transcript.";
+pub const RULE: &str = "Domain: one deterministic, seeded corpus evaluated by every build of the same harness source (feature sets of {likelysubtags, serde, macros}: quick = none, {l}, {l,s} (main), {s,m}, {l,s,m}; thorough = all 8): section A every 'en-' + locale-alphabet token sequence of 1-3 subtags, every 1-2 subtag sequence of the full boundary alphabet (exhaustive) and the sanitisation-slip strings (padding, case-folding look-alikes such as U+212A); B proptest well-formed locales (all extension shapes, case / separator masks); C near-miss mutations; D language-id strings and near misses - each through Locale::from_bytes, LanguageIdentifier::from_bytes, both canonicalize functions (through the facade crates), Display plain and under width / precision / fill format specs, Debug, hash; E all pairs of a 160 | 400-value pool: ==, cmp, hash equality, matches under the four flag pairs for Locale and LanguageIdentifier; F proptest mutation histories (0-40 public mutator / getter calls, maximize/minimize left out) with the call result and to_string() after every step; G character_direction of every accepted identifier of B and D and of every CLDR layout locale. Oracle: for every line index, sections A-F are byte-identical in all builds; a G line may differ only between a build with and one without likelysubtags, and only for a script-less identifier (the documented refinement). Non-trivial = a line whose input is not a single subtag (histories: at least one mutation step); distinct lines counted through a hash set over the reference build's transcript.";
 
 pub fn features() -> String {
     let mut f = vec![];
@@ -48,12 +48,13 @@ fn parse_line(b: &[u8]) -> String {
         let li = LanguageIdentifier::from_bytes(b);
         let c1 = unic_locale::canonicalize(b);
         let c2 = unic_langid::canonicalize(b);
+        // Display under format specs, and Debug, are part of 'serialising' too
         let ls = match &l {
-            Ok(v) => format!("Ok({v} #{:016x} ext={})", h(v), v.extensions),
+            Ok(v) => format!("Ok({v} #{:016x} ext={} [{v:>30}|{v:.4}|{v:*<9}] dbg#{:016x})", h(v), v.extensions, hash_str(&format!("{v:?}"))),
             Err(e) => format!("Err({e:?}/{e})"),
         };
         let lis = match &li {
-            Ok(v) => format!("Ok({v} #{:016x})", h(v)),
+            Ok(v) => format!("Ok({v} #{:016x} [{v:>24}|{v:.5}|{v:*<8}|{:>6}|{:.1}] dbg={v:?})", h(v), v.language, v.language),
             Err(e) => format!("Err({e:?}/{e})"),
         };
         format!("L={ls} LI={lis} canonL={c1:?} canonLI={c2:?}")
@@ -119,6 +120,7 @@ fn nth_of(alpha: &[Vec<u8>], mut idx: u64, prefix: &[u8]) -> Vec<u8> {
 
 /// the item behind a transcript line: (section, index) -> input description + line text
 pub struct Corpus {
+    slips: Vec<Vec<u8>>,
     plan: Plan,
     loc_alpha: Vec<Vec<u8>>,
     full_alpha: Vec<Vec<u8>>,
@@ -156,17 +158,25 @@ impl Corpus {
         let mut cldr: Vec<String> = c.locale_names.iter().chain(c.likely_keys.iter()).cloned().collect();
         cldr.sort();
         cldr.dedup();
-        Corpus { plan, loc_alpha: gen::locale_alphabet(), full_alpha: gen::full_alphabet(), pool, cldr }
+        let bases: Vec<&str> = crate::props::spaces::SLIP_BASES_LANGID.iter().chain(crate::props::spaces::SLIP_BASES_LOCALE.iter()).cloned().chain(["ko-KR", "sk", "is-IS", "kk-Cyrl-KZ"]).collect();
+        let slips = crate::props::spaces::sanitisation_slips(&bases);
+        Corpus { slips, plan, loc_alpha: gen::locale_alphabet(), full_alpha: gen::full_alphabet(), pool, cldr }
     }
 
     pub fn sections(&self) -> Vec<(char, u64)> {
         let p = self.pool.len() as u64;
-        vec![('A', self.plan.n_loc_alpha + self.plan.n_full), ('B', self.plan.n_b), ('C', self.plan.n_c), ('D', self.plan.n_d), ('E', p * p), ('F', self.plan.n_f), ('G', self.plan.n_b + self.plan.n_d + self.cldr.len() as u64)]
+        vec![('A', self.plan.n_loc_alpha + self.plan.n_full + self.slips.len() as u64), ('B', self.plan.n_b), ('C', self.plan.n_c), ('D', self.plan.n_d), ('E', p * p), ('F', self.plan.n_f), ('G', self.plan.n_b + self.plan.n_d + self.cldr.len() as u64)]
     }
 
     fn bytes_of(&self, sec: char, idx: u64) -> Option<Vec<u8>> {
         match sec {
-            'A' => Some(if idx < self.plan.n_loc_alpha { nth_of(&self.loc_alpha, idx, b"en-") } else { nth_of(&self.full_alpha, idx - self.plan.n_loc_alpha, b"") }),
+            'A' => Some(if idx < self.plan.n_loc_alpha {
+                nth_of(&self.loc_alpha, idx, b"en-")
+            } else if idx < self.plan.n_loc_alpha + self.plan.n_full {
+                nth_of(&self.full_alpha, idx - self.plan.n_loc_alpha, b"")
+            } else {
+                self.slips[(idx - self.plan.n_loc_alpha - self.plan.n_full) as usize].clone()
+            }),
             'B' => gen_case(&gen::s_ast(), self.plan.seed, salt("c20-B"), idx).map(|a| a.render()),
             'C' => gen_case(&gen::s_near_miss(), self.plan.seed, salt("c20-C"), idx),
             'D' => {
